@@ -117,6 +117,12 @@ func (x *Exec) appendModel(fr *frame, s *State, dst, src Value, pos token.Pos) V
 	ref, off, ln, cp := dst.L[0], dst.L[1], dst.L[2], dst.L[3]
 	x.noteSlice(s, dst)
 	x.noteSlice(s, src)
+	// in-place appends write into the destination's backing array beyond its length
+	if x.frameOn {
+		x.C.Oblige(x.oblName(fr.fn, "frame"), "frame", x.pos(pos), "append writes in place only into memory the modifies clause names (or a fresh array)", s.Reach,
+			Or(Not(BVCmp("bvule", BVOp("bvadd", dst.L[2], src.L[2]), dst.L[3])), Eq(src.L[2], BVLitI(64, 0)), App(SBool, ">=", dst.L[0], x.entry.Frontier),
+				inTargets(x.frameTs, dst.L[0], BVOp("bvadd", dst.L[1], mulOff(dst.L[2], st)))))
+	}
 	newLen := x.C.Define("newlen", BVOp("bvadd", ln, slen))
 	inPlace := x.C.Define("inplace", BVCmp("bvule", newLen, cp))
 	fresh := x.alloc(s, "append")
@@ -177,6 +183,7 @@ func (x *Exec) appendModel(fr *frame, s *State, dst, src Value, pos token.Pos) V
 func (x *Exec) copyModel(fr *frame, s *State, dst, src Value) Value {
 	sl := dst.T.Underlying().(*types.Slice)
 	st := x.stride(sl.Elem())
+	x.frameCheckRange(fr, s, dst.L[0], dst.L[1], mulOff(dst.L[2], st), token.NoPos, "copy destination")
 	var n Term
 	if isString(src.T) {
 		sln := app(SBV64, "sx.len", src.L[0])
@@ -489,6 +496,7 @@ func (x *Exec) binaryModel(fr *frame, s *State, callee *ssa.Function, big bool, 
 			x.C.Oblige(x.oblName(fr.fn, "index"), "bounds", x.pos(pos), fmt.Sprintf("binary.%s: len(b) >= %d", name, n), s.Reach,
 				BVCmp("bvuge", b.L[2], BVLitI(64, int64(n))))
 		}
+		x.frameCheckLoc(fr, s, b.L[0], b.L[1], int64(n), pos)
 		obj := Select(h, b.L[0], ObjSort(SBV8))
 		for i := 0; i < n; i++ {
 			var hi int
